@@ -655,11 +655,13 @@ def run(ctx):
                 distinct.add((prof, comp))
         reported = set()
         last_wf = None
-        for q, o, comp, cls, _ in cases:
+        for q, o, comp, cls, detail in cases:
             if not q.startswith("QCompute"):
                 continue
             prog = parse_prog(comp)
             d = direct_oracle(prog, o, cls)
+            if d and cls.startswith("src-"):
+                d = (d[0], d[1] + f" [source stream {cls}; type spelling / optimisation level: {detail}; names S7001.. = Int, Float, Missing, S7101.. = Élan, Ωmega, Ärmel, Öse, Жук, Ñandú, Şekil, Δelta]")
             if d:
                 oracle_fail += 1
                 if d[0] not in reported:
